@@ -285,6 +285,9 @@ impl<'tcx> Ctx<'tcx> {
         }
         if let Const::Unevaluated(u, _) = c {
             v.push(("def", js(&path_of(tcx, u.def))));
+            if let Some(p) = u.promoted {
+                v.push(("promoted", p.as_u32().to_string()));
+            }
         }
         // scalar value
         let is_scalar_ty = ty.is_integral() || ty.is_bool() || ty.is_char() || ty.is_enum();
@@ -646,6 +649,41 @@ impl<'tcx> Ctx<'tcx> {
             ]));
         }
         v.push(("blocks", jarr(blocks)));
+        // promoted constants: which named constants / fn items each one mentions
+        let mut proms = Vec::new();
+        if matches!(kind, DefKind::Fn | DefKind::AssocFn | DefKind::Closure) {
+            let pm = tcx.promoted_mir(did);
+            for pb in pm.iter() {
+                let mut items = Vec::new();
+                for bb in pb.basic_blocks.iter() {
+                    for st in &bb.statements {
+                        if let StatementKind::Assign(b) = &st.kind {
+                            let (_, rv) = &**b;
+                            let mut ops: Vec<&Operand<'tcx>> = Vec::new();
+                            match rv {
+                                Rvalue::Use(o, ..) | Rvalue::Cast(_, o, _) | Rvalue::UnaryOp(_, o) | Rvalue::Repeat(o, _) => ops.push(o),
+                                Rvalue::BinaryOp(_, ab) => { ops.push(&ab.0); ops.push(&ab.1); }
+                                Rvalue::Aggregate(_, os) => { for o in os.iter() { ops.push(o); } }
+                                _ => {}
+                            }
+                            for o in ops {
+                                if let Operand::Constant(c) = o {
+                                    items.push(self.constant(did, &c.const_));
+                                }
+                            }
+                        }
+                    }
+                    if let Some(t) = &bb.terminator {
+                        if let TerminatorKind::Call { func, args, .. } = &t.kind {
+                            if let Operand::Constant(c) = func { items.push(self.constant(did, &c.const_)); }
+                            for a in args.iter() { if let Operand::Constant(c) = &a.node { items.push(self.constant(did, &c.const_)); } }
+                        }
+                    }
+                }
+                proms.push(jarr(items));
+            }
+        }
+        v.push(("promoted", jarr(proms)));
         Some(jobj(v))
     }
 
